@@ -6,6 +6,7 @@ symbolically and, for replay, concretely on the unpatched code."""
 from __future__ import annotations
 
 import numpy as np
+import z3
 
 from harness.common import dual_harness
 from symx import arrays, core
@@ -216,3 +217,61 @@ ASSUMPTIONS = [
     "the sign argument for the posterior scale goes through; counterexamples must replay)",
     "sqrt is an uninterpreted function with sqrt(x) >= 0 for x >= 0 and NaN for x < 0; nonlinear real arithmetic by z3",
 ]
+
+
+# ---------------------------------------------------------------- the ML variance under the standard model of float arithmetic
+def sc_variance_rounding(d, n, weights):
+    """NICKernelRegressor / NadarayaWatsonRegressor._estimate_ml_params with every arithmetic result perturbed by a
+    relative rounding error (1 + delta), |delta| <= 2**-10 (standard model of floating-point arithmetic; overflow /
+    underflow outside): the variance estimate stays non-negative for ALL roundings. A one-pass formula
+    E[y^2] - E[y]^2 does not (cancellation) - in exact reals the two are the same number, which is why this scenario
+    exists. Concrete replay: targets with large offsets (1e6 .. 2e9) through the real code."""
+    import skactiveml.regressor as R
+    if d.sym:
+        xs = [d.fl(f"x{i}", lo=-2.0, hi=2.0) for i in range(n)]
+        ys = [d.fl(f"y{i}") for i in range(n)]
+        ws = [d.fl(f"w{i}", lo=0.0, hi=4.0) for i in range(n)] if weights else None
+        if weights:
+            tot = 0.0
+            for w in ws:
+                tot = core.s_add(tot, w)
+            d.c.assume(core.s_lt(0, tot))
+        reg = R.NICKernelRegressor().fit(d.arr([[x] for x in xs], shape=(n, 1)), d.arr(ys), d.arr(ws) if weights else None)
+        xq = d.arr([[d.fl("q", lo=-2.0, hi=2.0)]], shape=(1, 1))
+        d.c.rounding_eps = z3.RealVal("1/1024")
+        try:
+            N, mu, var = reg._estimate_ml_params(xq)
+        finally:
+            d.c.rounding_eps = None
+        v = d.flat(var)[0]
+        # hint for the model search: all feature rows equal (every kernel value is then 1)
+        same_rows = z3.And(*[core.lift(x).r == core.lift(xs[0]).r for x in xs[1:]], core.lift(d.flat(xq)[0]).r == core.lift(xs[0]).r)
+        ok = d.c.prove_with_tactic(core.lift(v).r >= 0, "ml_variance_non_negative_under_rounding", hints=[same_rows])
+        if not ok and d.c.cex:
+            # (the patched Ctx.prove attaches concrete inputs to counterexamples; do the same here)
+            from harness import common as _cm
+            cx = d.c.cex[-1]
+            if getattr(cx, "model", None) is not None:
+                cx.inputs = _cm.concretize(getattr(d.c, "inputs", {}), cx.model)
+                cx.inputs["__rng__"] = {}
+                cx.model = None
+        d.witness(True, "ran")
+        return
+    # concrete: offsets at which cancellation shows in double precision
+    rs = np.random.RandomState(0)
+    for offset in (1e6, 1e7, 1e8, 1e9, 1.7e9, 2e9):
+        for _ in range(3):
+            X = rs.uniform(-2, 2, size=(max(n, 5), 1))
+            y = offset + rs.randint(0, 6, size=len(X)).astype(float)
+            w = rs.uniform(0.5, 2.0, size=len(X)) if weights else None
+            reg = R.NICKernelRegressor(metric_dict={"gamma": 0.5}).fit(X, y, w)
+            N, mu, var = reg._estimate_ml_params(rs.uniform(-2, 2, size=(4, 1)))
+            if not np.all(var >= 0):
+                d.prove(False, "ml_variance_non_negative_under_rounding", info=dict(offset=offset, variance=np.asarray(var).tolist()))
+                return
+
+
+HARNESSES.append(dual_harness(
+    "ml_variance_rounding", sc_variance_rounding,
+    lambda tier: [dict(n=n, weights=w) for n in ((2,) if tier == "quick" else (2, 3)) for w in (False, True)],
+    [UNITS[1]], required_witnesses=("ran",), timeout_ms=60000))
